@@ -272,6 +272,90 @@ func postC10(res *RunResult) {
 			first[k] = norm
 		}
 	}
+	// DecodeChained over a concatenation: one File per input, each equal to decoding that file alone
+	// (the alone decodes start from the accumulator state the previous file left, as the chain does)
+	checked := map[string]bool{}
+	nChainCmp, nHdrCmp := 0, 0
+	for i, c := range res.Stats.cases {
+		dc, ok := parseDecCase(c)
+		if !ok || dc.entry != "chained" || strings.Contains(dc.rspec, "f") {
+			continue
+		}
+		dr, ok2 := parseDecRes(res.Stats.impl[i])
+		if !ok2 || dr.tag != "ok" {
+			continue
+		}
+		ck := dc.opts + " " + dc.accu + " " + string(dc.data)
+		if checked[ck] {
+			continue
+		}
+		checked[ck] = true
+		nChainCmp++
+		parts := strings.Split(dr.dump, "##")
+		if dr.dump == "none" {
+			parts = nil
+		}
+		accu := dc.accu
+		pos, idx := 0, 0
+		for pos < len(dc.data) {
+			fl, ok := frameLen(dc.data[pos:])
+			if !ok || pos+fl > len(dc.data) {
+				break
+			}
+			alone, okA := parseDecRes(implDec("decode", dc.opts, "-", accu, hex.EncodeToString(dc.data[pos:pos+fl])))
+			if !okA || alone.tag != "ok" {
+				break
+			}
+			if idx >= len(parts) {
+				addViolation(res, c, res.Stats.impl[i], fmt.Sprintf("DecodeChained returned %d files for a concatenation of at least %d", len(parts), idx+1))
+				break
+			}
+			if parts[idx] != alone.dump {
+				addViolation(res, c, res.Stats.impl[i], fmt.Sprintf("file %d of the chain differs from decoding it alone: %s", idx, firstDiff(parts[idx], alone.dump)))
+				break
+			}
+			accu = alone.accu
+			pos += fl
+			idx++
+		}
+		if pos == len(dc.data) && idx != len(parts) {
+			addViolation(res, c, res.Stats.impl[i], fmt.Sprintf("DecodeChained returned %d files for a concatenation of %d", len(parts), idx))
+		}
+	}
+	// DecodeHeader and DecodeHeaderAndFileID report the header (and file_id) that Decode reports
+	decoded := map[string]string{}
+	for i, c := range res.Stats.cases {
+		if dc, ok := parseDecCase(c); ok && dc.entry == "decode" {
+			if dr, ok2 := parseDecRes(res.Stats.impl[i]); ok2 && dr.tag == "ok" {
+				decoded[string(dc.data)] = dr.dump
+			}
+		}
+	}
+	for i, c := range res.Stats.cases {
+		dc, ok := parseDecCase(c)
+		if !ok || (dc.entry != "header" && dc.entry != "headerfid") {
+			continue
+		}
+		full, have := decoded[string(dc.data)]
+		dr, ok2 := parseDecRes(res.Stats.impl[i])
+		if !have || !ok2 {
+			continue
+		}
+		if dr.tag != "ok" {
+			addViolation(res, c, res.Stats.impl[i], dc.entry+" fails on a stream Decode accepts")
+			continue
+		}
+		nHdrCmp++
+		sec := sectionsOf(full)
+		want := sec["H"]
+		if dc.entry == "headerfid" {
+			want += ";" + sec["I"]
+		}
+		if dr.dump != want {
+			addViolation(res, c, res.Stats.impl[i], dc.entry+" reports a different header / file_id than Decode: "+firstDiff(dr.dump, want))
+		}
+	}
+	res.Notes = append(res.Notes, fmt.Sprintf("%d chains compared file by file with decoding each file alone; %d DecodeHeader / DecodeHeaderAndFileID results compared with Decode", nChainCmp, nHdrCmp))
 }
 
 func postC11(res *RunResult) {
